@@ -94,6 +94,12 @@ def classify(ctx, rep):
         if r.kind == 'trans' and r.effect is not None:
             s = r.site(eng.wrappers)
             eff.setdefault((s.fn.name, s.id), set()).add(r.effect + (r.hold,))
+        elif r.kind == 'trans' and r.how == 'store':
+            # a store whose value the interpreter cannot relate to the word (C01.R3 / C16.R1 judge that); for the order it is a
+            # release of whatever the thread owns there: the spinlock and/or the lock
+            s = r.site(eng.wrappers)
+            owns = r.spin == 1 or r.hold in ('W', 'R')
+            eff.setdefault((s.fn.name, s.id), set()).add((0, 0, -1 if owns else 0, r.hold))
     for (fname, iid), effs in eff.items():
         s = by_inst.get((fname, iid))
         if s is None:
